@@ -1,3 +1,4 @@
 pub mod earley;
 pub mod lr1;
 pub mod trees;
+pub mod prec;
